@@ -39,6 +39,11 @@ func SleepContext(ctx context.Context, d time.Duration) error {
 			return DeadlineTooSoonError{remaining: remaining, d: d}
 		}
 	}
+	// A context that has already ended wins, however long it takes to get from here to the select
+	// below (where, with both channels ready, the choice would be random).
+	if err := ctx.Err(); err != nil {
+		return err
+	}
 	t := time.NewTimer(d)
 	select {
 	case <-ctx.Done():
